@@ -124,10 +124,23 @@ func (p *Parser) declaration() (Decl, *ParseError) {
 		}
 		return nil, nil
 	case p.check(TokenDiagnostic):
-		// Skip diagnostic directives for now
+		// Skip diagnostic directives for now (their parentheses must still balance)
 		p.advance()
+		depth := 0
 		for !p.check(TokenSemicolon) && !p.isAtEnd() {
+			switch {
+			case p.check(TokenLeftParen):
+				depth++
+			case p.check(TokenRightParen):
+				depth--
+			}
 			p.advance()
+		}
+		if depth != 0 {
+			return nil, &ParseError{
+				Message: fmt.Sprintf("expected %s, got %s", TokenRightParen, p.peek().Kind),
+				Token:   p.peek(),
+			}
 		}
 		if p.check(TokenSemicolon) {
 			p.advance()
